@@ -38,6 +38,7 @@ mutual
     | .assign _ (.call _ args) => pureEs args
     | .call _ args => pureEs args
     | .funcDef _ _ body => pureSs body
+    | .localE _ => true
     | .assign _ v => pureE v
     | .ifE c cons none => pureE c && pureSs cons
     | .ifE c cons (some a) => pureE c && pureSs cons && pureSs a
@@ -131,6 +132,7 @@ mutual
   def execE (M : Machine) (F : FnTable) (obj : HostVal) (depth : Nat) : Nat → Expr → Env → Str → Outcome
     | 0, _, _, _ => .diverged
     | _ + 1, .funcDef _ _ _, env, out => .normal env out   -- defining a function does nothing at run time
+    | _ + 1, .localE name, env, out => .normal (env.declare name .null) out   -- `local x;`: x is null in the innermost scope
     | f + 1, .assign name (.call fn args), env, out =>
         -- `name = fn(args)`: a call that yields no value has none to assign (no outcome is defined)
         match callWith (decide (depth ≥ maxCallDepth)) (fun b e o => execSs M F obj (depth + 1) f b e o) M F obj fn.str args env out with
@@ -367,6 +369,13 @@ theorem step_set (M : Machine) (obj : HostVal) (len : Nat) (rb : Bytes → RunSt
   have : Op.ofNat? Op.set.toNat = some .set := rfl
   simp only [step, this, isBinary]; simp
 
+
+theorem step_local (M : Machine) (obj : HostVal) (len : Nat) (rb : Bytes → RunSt → Res × RunSt) (arg next : Nat)
+    (name : Value) (stack : List Value) (st : RunSt) :
+    step M obj len rb Op.local.toNat arg next (name :: stack) st =
+      .cont next stack { st with env := st.env.declare name.inspect .null } := by
+  have : Op.ofNat? Op.local.toNat = some .local := rfl
+  simp only [step, this, isBinary]; simp
 
 theorem step_iterReset_ok (M : Machine) (obj : HostVal) (len : Nat) (rb : Bytes → RunSt → Res × RunSt) (arg next : Nat)
     (v it : Value) (stack : List Value) (st : RunSt) (h : resetVal v = .ok it) :
@@ -1022,6 +1031,30 @@ theorem step_E (ctx : Ctx M code) (hF : FnOK M F obj) (f : Nat) (ihAll : ∀ cod
     obtain ⟨⟨cb, st1⟩, h1, h3⟩ := h
     cases h3
     exact ⟨0, 0, 0, fun fuel => by simp [afterS, execE, Expr.size]⟩
+  | localE name =>
+    simp only [compileExpr, pure, Except.pure] at h
+    cases h
+    have hk : CodeAt code base [(withConst cst .constant (.str name)).1, ⟨.local, 0⟩] := hc
+    have hloc : CodeAt code (base + 3) [⟨.local, 0⟩] := by
+      have := hk.tail; simpa [Instr.size, withConst_op, Op.length] using this
+    obtain ⟨cn, hget, _, hinsp⟩ := withConst_pool cst .constant (.str name) M.consts hp
+    have hlt : (withConst cst .constant (.str name)).1.arg < 65536 := by
+      have := (List.getElem?_eq_some_iff.mp hget).1
+      have := ctx.pool; omega
+    have hop : (withConst cst .constant (.str name)).1.op = .constant := rfl
+    have harg : storedArg (withConst cst .constant (.str name)).1 = (withConst cst .constant (.str name)).1.arg := by
+      simp [storedArg, hop, Op.length, Nat.mod_eq_of_lt hlt]
+    have hrun0 : ∀ fuel, loop M obj code (fuel + 0) base stack ⟨env, out, polls, depth⟩ =
+        loop M obj code (fuel + 0) base stack ⟨env, out, polls + 0, depth⟩ := fun _ => rfl
+    have hrun1 : ∀ fuel, loop M obj code (fuel + (1 + 0)) base stack ⟨env, out, polls, depth⟩ =
+        loop M obj code (fuel + 0) (base + 3) (cn :: stack) ⟨env, out, polls + 0 + 1, depth⟩ := by
+      intro fuel
+      rw [stepE hrun0 hk ctx.nd (Or.inl harg) _ harg.symm fuel, hop, step_constant M obj _ _ _ _ _ _ cn hget]
+      simp [Instr.size, hop, Op.length]
+    refine ⟨1 + (1 + 0), 0 + 1 + 1, 0, fun fuel => ?_⟩
+    rw [stepE hrun1 hloc ctx.nd (Or.inr rfl) 0 (by simp [storedArg, Op.length]) fuel, step_local]
+    have hname : cn.inspect = name := by rw [hinsp]; simp [Value.inspect]
+    simp [afterS, execE, hname, Expr.size, Instr.size, Op.length, Nat.add_assoc]
   | call fn args =>
     simp only [stmtE] at hpure
     simp only [execE] at hnd ⊢
@@ -2017,6 +2050,7 @@ mutual
     | .assign n (.call fn args), h => by simp only [stmtE] at h; simp [normExpr, normExprs_pure args h]
     | .call fn args, h => by simp only [stmtE] at h; simp [normExpr, normExprs_pure args h]
     | .funcDef n ps b, h => by simp only [stmtE] at h; simp [normExpr, normStmts_pure b h]
+    | .localE n, _ => by simp [normExpr]
     | .assign n v, h => by
       by_cases hcall : ∃ fn args, v = .call fn args
       · obtain ⟨fn, args, rfl⟩ := hcall
